@@ -188,6 +188,44 @@ Fixpoint tmsg (discard : bool) (rem : nat) (fs : list fld) {struct rem} : outcom
           rem' fs ints_empty ints_empty
   end.
 
+(* ---------------------------------------------------------------- prototext unmarshalAny
+   google.protobuf.Any has a loop of its own (no seenNums): three kinds of field events. *)
+Inductive aev :=
+| AT                      (* type_url: "..." *)
+| AV                      (* value: "..." *)
+| AE (child : outcome).   (* [type.url] { ... } expanded form; [child] = outcome of decoding the embedded message *)
+
+Fixpoint tany (evs : list aev) (seenT seenV expanded : bool) : outcome :=
+  match evs with
+  | [] => Accept
+  | AT :: r => if seenT then Reject RDup                    (* "duplicate ... type_url field" *)
+               else if expanded then Reject RDup            (* "conflict with [%s] field" *)
+               else tany r true seenV expanded
+  | AV :: r => if seenV then Reject RDup
+               else if expanded then Reject RDup
+               else tany r seenT true expanded
+  | AE child :: r =>
+               if expanded then Reject RDup                 (* "cannot have more than one type" *)
+               else if seenT then Reject RDup               (* "conflict with type_url field" *)
+               else match child with                        (* seenValue is NOT consulted: finding FL3 *)
+                    | Accept => tany r seenT seenV true
+                    | o => o
+                    end
+  end.
+
+(* how many events give the bytes field Any.value a value *)
+Fixpoint value_sets (evs : list aev) : nat :=
+  match evs with
+  | [] => 0
+  | AT :: r => value_sets r
+  | _ :: r => S (value_sets r)
+  end.
+Definition excl_FL3 (evs : list aev) : bool :=
+  match evs with
+  | [AV; AE Accept] => true
+  | _ => false
+  end.
+
 (* ---- tokens of the harness *)
 Definition rej_code (r : rej) : N :=
   match r with RDup => 1 | ROneof => 2 | RDepth => 3 | RUnknown => 4 | RByNum => 5 end%N.
